@@ -16,6 +16,7 @@ BODY = {
     "exit": "import evh.pair as _p\nchannel.send(('ran', %d, _p.CURRENT.sc.me().idx))\nraise SystemExit(3)\n",
     "int": "import evh.pair as _p\nchannel.send(('ran', %d, _p.CURRENT.sc.me().idx))\nraise KeyboardInterrupt()\n",
     "block": "import evh.pair as _p\nchannel.send(('ran', %d, _p.CURRENT.sc.me().idx))\nchannel.receive()\n",
+    "blockrel": "import evh.pair as _p\nchannel.send(('ran', %d, _p.CURRENT.sc.me().idx))\nchannel.receive()\n",   # released later by the initiator
 }
 
 
@@ -29,6 +30,7 @@ def run_history(hist, chooser, seed):
     obs = [None] * len(hist)
     chans = []
     early, closing = {}, {}
+    released = []
 
     def settle(k):
         """what the initiator observes on channel k (bounded virtual wait)"""
@@ -53,7 +55,22 @@ def run_history(hist, chooser, seed):
 
     def user():
         for k, (oc, wait_prev) in enumerate(hist):
-            if k and wait_prev and hist[k - 1][0] != "block":
+            if oc == "RELEASE":
+                # first everything submitted so far gets its answer (overlapping requests their refusal), then the blocked body
+                # of exec `wait_prev` is let go and its channel closes
+                j = wait_prev
+                for i in range(k):
+                    if obs[i] is None and hist[i][0] != "RELEASE":
+                        obs[i] = settle(i)
+                try:
+                    chans[j].send(None)
+                    chans[j].waitclose(timeout=10)
+                    released.append(j)
+                except Exception as e:  # noqa
+                    released.append((j, type(e).__name__))
+                chans.append(None)
+                continue
+            if k and wait_prev and hist[k - 1][0] not in ("block", "blockrel", "RELEASE"):
                 try:
                     chans[k - 1].waitclose(timeout=10)
                 except RemoteError as e:
@@ -64,10 +81,13 @@ def run_history(hist, chooser, seed):
             if obs[k] is None:
                 pass
         for k in range(len(hist)):
-            obs[k] = settle(k)
+            if hist[k][0] == "RELEASE":
+                obs[k] = ("released",)
+            elif obs[k] is None:
+                obs[k] = settle(k)
         # closing outcome of each finished body
         for k, (oc, _) in enumerate(hist):
-            if obs[k][0] == "ran" and oc != "block":
+            if obs[k][0] == "ran" and oc not in ("block", "blockrel"):
                 try:
                     if k in closing:
                         raise closing[k]
@@ -91,9 +111,13 @@ def expected_from_property(hist):
     """deadlock error iff an earlier body is still running (blocked); otherwise the body runs"""
     exp = []
     blocked = False
-    for oc, _ in hist:
+    for oc, arg in hist:
+        if oc == "RELEASE":
+            exp.append("released")
+            blocked = False
+            continue
         exp.append("deadlock" if blocked else "ran")
-        if not blocked and oc == "block":
+        if not blocked and oc in ("block", "blockrel"):
             blocked = True
     return exp
 
@@ -107,6 +131,11 @@ def main(tier, seed, replay=None):
     ]
     ok = ck.prepare()
     rng = ck.rng
+    import sys
+
+    _hook = sys.unraisablehook
+    # Channel.__del__ of objects collected after a scheduler run was stopped meets the stopped scheduler: not an observation
+    sys.unraisablehook = lambda u: None if isinstance(u.exc_value, S.Abort) else _hook(u)
     hists = []
     if replay and replay["example"].get("hist"):
         hists.append(([tuple(h) for h in replay["example"]["hist"]], replay["example"].get("schedule"), replay["example"].get("seed", 0)))
@@ -120,7 +149,13 @@ def main(tier, seed, replay=None):
         for _ in range(60 if tier == "quick" else 1500):
             n = rng.randint(3, 5)
             hists.append(([(rng.choice(OUTCOMES), rng.random() < 0.6) for _ in range(n)], None, rng.getrandbits(30)))
-    mcases = [[14, len(h)] + [x for k, (oc, w) in enumerate(h) for x in (OUTCOMES.index(oc), int(w and k > 0 and h[k - 1][0] != "block"))] for h, _, _ in hists]
+        # a blocked body, overlapping requests (refused), the body is released and ends, then requests that must run again
+        for _ in range(40 if tier == "quick" else 800):
+            h = [("blockrel", False)] + [(rng.choice(OUTCOMES[:4]), False) for _ in range(rng.randint(0, 2))] + [("RELEASE", 0)]
+            h += [(rng.choice(OUTCOMES[:4]), True) for _ in range(rng.randint(1, 2))]
+            hists.append((h, None, rng.getrandbits(30)))
+    has_release = lambda h: any(o == "RELEASE" for o, _ in h)  # noqa
+    mcases = [[14, len(h)] + [x for k, (oc, w) in enumerate(h) for x in (OUTCOMES.index(oc), int(w and k > 0 and h[k - 1][0] != "block"))] if not has_release(h) else [14, 0] for h, _, _ in hists]
     mouts = None
     if ok:
         try:
@@ -147,6 +182,8 @@ def main(tier, seed, replay=None):
                 if any(got[i] != exp[i] for i in range(k)):
                     continue  # report the first divergence only: later ones are its consequences
                 prev = hist[k - 1][0] if k else None
+                if prev == "RELEASE":
+                    prev = "released-body"
                 if g == "deadlock" and e == "ran":
                     ck.fail(f"false-deadlock-after-{prev}", ex)
                 elif e == "deadlock":
@@ -159,11 +196,13 @@ def main(tier, seed, replay=None):
         if [r_[1] for r_ in ran] != sorted(r_[1] for r_ in ran):
             ck.fail("bodies-not-in-submission-order", ex)
         for k, (oc, _) in enumerate(hist):
+            if oc in ("RELEASE", "blockrel"):
+                continue
             if obs[k] and obs[k][0] == "ran" and len(obs[k]) > 2:
                 want = {"ret": "closed-ok", "raise": "closed-error", "exit": "closed-error", "int": "closed-error"}[oc]
                 if not obs[k][2].startswith(want):
                     ck.fail("channel-end-state-wrong:" + oc, ex)
-        if mouts is not None:
+        if mouts is not None and not has_release(hist):
             mo = mouts[idx]
             sep = mo.index(-1)
             mres = ["ran" if x == 0 else "deadlock" if x == 1 else "nothing" for x in mo[:sep]]
